@@ -1,5 +1,5 @@
 # Per-property run configuration for ./check (package, case counts per shard, shards, wedge guards).
 CONF = {
-    "C01": dict(pkg="props/c01", quick=dict(checks=350, shards=8, timeout=600), thorough=dict(checks=12000, shards=16, timeout=3600)),
-    "C15": dict(pkg="props/c15", quick=dict(checks=350, shards=8, timeout=600), thorough=dict(checks=12000, shards=16, timeout=3600)),
+    "C01": dict(pkg="props/c01", quick=dict(checks=3000, shards=8, timeout=600), thorough=dict(checks=12000, shards=16, timeout=3600)),
+    "C15": dict(pkg="props/c15", quick=dict(checks=3000, shards=8, timeout=600), thorough=dict(checks=12000, shards=16, timeout=3600)),
 }
